@@ -1037,6 +1037,16 @@ func (obj *Package) DefLambda(name string, lam *Lambda, fc func(args List) Objec
 		xlam.Forms = lam.Forms
 		xlam.Closure = lam.Closure
 		xlam.Macro = lam.Macro
+		// The calls compiled from now on are bound to the same lambda as
+		// the earlier ones, the one a later redefinition updates.
+		create := fc
+		fc = func(args List) Object {
+			o := create(args)
+			if d, ok := o.(*Dynamic); ok && d.Self == Caller(lam) {
+				d.Self = xlam
+			}
+			return o
+		}
 	} else {
 		obj.lambdas[name] = lam
 	}
